@@ -2,6 +2,7 @@ package main
 
 import (
 	"fmt"
+	"math/big"
 	"go/token"
 	"go/types"
 	"sort"
@@ -128,6 +129,9 @@ func (w *World) ruleKindNarrowing(r *Report, rule string) {
 				_, changed := src.wrap(tb, tsig)
 				kinds := f.kindsAt(b)
 				switch {
+				case !changed && tb < sb && func() bool { p, _ := w.refusesRepresentable(cv, f, tb, tsig); return p != "" }():
+					pos, set := w.refusesRepresentable(cv, f, tb, tsig)
+					r.add(rule, key, w.instrPos(cv), false, fmt.Sprintf("the range test in front of the conversion refuses values that fit: the error return at %s is reached with operand ∈ %s, which meets the range of %s — a representable value is not carried", pos, set, typeStr(cv.Type())))
 				case !changed:
 					o := r.add(rule, key, w.instrPos(cv), true, fmt.Sprintf("operand ∈ %s fits %s (kinds here: %v)", src, typeStr(cv.Type()), kinds))
 					o.Trivial = tb > sb
@@ -144,6 +148,12 @@ func (w *World) ruleKindNarrowing(r *Report, rule string) {
 					// the conversion may precede its guard (narrow first, then compare the
 					// round trip): what counts is the operand's range where the result is used
 					if seen, lossy, fact := w.convVerdict(cv); seen && !lossy {
+						// the guard must refuse ONLY what does not fit: on every error return whose
+						// path constrains the operand, the operand's set is disjoint from the target range
+						if pos, set := w.refusesRepresentable(cv, f, tb, tsig); pos != "" {
+							r.add(rule, key, w.instrPos(cv), false, fmt.Sprintf("the range test in front of the conversion refuses values that fit: the error return at %s is reached with operand ∈ %s, which meets the range of %s — a representable value is not carried", pos, set, typeStr(cv.Type())))
+							continue
+						}
 						r.add(rule, key, w.instrPos(cv), true, "narrowing conversion whose result is only used where the operand fits: "+fact)
 						continue
 					}
@@ -527,4 +537,40 @@ func (w *World) hasInputIntegerConv(fn *ssa.Function) bool {
 		}
 	}
 	return false
+}
+
+// refusesRepresentable: an error return of cv's function is reached on a path
+// that constrains cv's operand to a set that still contains values of the
+// target type ("" if none).
+func (w *World) refusesRepresentable(cv *ssa.Convert, f *Flow, tb uint, tsig bool) (string, ISet) {
+	fn := cv.Parent()
+	idx := errIndex(fn.Signature)
+	if idx < 0 {
+		return "", nil
+	}
+	var target ISet
+	if tsig {
+		target = bitsRange(tb)
+	} else {
+		target = ISet{{new(big.Int), new(big.Int).Sub(new(big.Int).Lsh(one, tb), one)}}
+	}
+	full, _ := typeRange(w, cv.X.Type())
+	for _, b := range fn.Blocks {
+		ret, ok := b.Instrs[len(b.Instrs)-1].(*ssa.Return)
+		if !ok || !f.Reachable(b) || !w.nonNilErr(ret.Results[idx], nil, nil, 0) {
+			continue
+		}
+		// only error returns decided by a test of the operand: the operand's definition dominates the block
+		if in, ok := cv.X.(ssa.Instruction); ok && !(in.Block() == b || in.Block().Dominates(b)) {
+			continue
+		}
+		s, _ := f.ValueAt(cv.X, b)
+		if s == nil || s.Empty() || (full != nil && s.Equal(full)) {
+			continue
+		}
+		if !s.Intersect(target).Empty() {
+			return w.instrPos(ret), s
+		}
+	}
+	return "", nil
 }
